@@ -105,6 +105,26 @@ class PreFunction:
             )
         )
 
+    def __argument_text(self, tokens: list[Token]) -> str:
+        """
+        Source text of an argument of a lazy function call (positional or keyword),
+        which is substituted for the parameter in the function body
+
+        :param tokens: Tokens of the argument
+        :return: Text of the argument
+        """
+        if tokens and tokens[0].token_type == TokenType.FUNC:
+            # an arrow function was folded into its body: write its head again
+            token = tokens[0]
+            params = (
+                "()" if token._embeded_data is None else token._embeded_data.string
+            )
+            tokens = [
+                Token(token.token_type, token.line, token.col, params + "=>"),
+                *tokens,
+            ]
+        return self.tokenizer.merge_tokens(tokens, use_full_string=True).string
+
     def handle_lazy(
         self,
         args: list[list[Token]],
@@ -122,9 +142,7 @@ class PreFunction:
             )
         for index, param in enumerate(params):
             if param in kwargs:
-                param_arg[param] = self.tokenizer.merge_tokens(
-                    kwargs[param], use_full_string=True
-                ).string
+                param_arg[param] = self.__argument_text(kwargs[param])
                 del kwargs[param]
                 continue
 
@@ -134,14 +152,7 @@ class PreFunction:
                     error_token,
                     self.tokenizer,
                 )
-            if args[index] and args[index][0].token_type == TokenType.FUNC:
-                token = args[index][0]
-                args[index].insert(
-                    0, Token(token.token_type, token.line, token.col, "()=>")
-                )
-            param_arg[param] = self.tokenizer.merge_tokens(
-                args[index], use_full_string=True
-            ).string
+            param_arg[param] = self.__argument_text(args[index])
 
         if kwargs:
             raise JMCValueError(
